@@ -8,8 +8,9 @@ namespace Redb.BTree
 open Redb.Key Redb.Spec
 
 /-- a well-formed tree flattens to a strictly sorted list of valid keys inside its bounds -/
-theorem flatten_sorted (t : KT) (hc : CmpLaws t) (lo hi : Option Bytes) (d : Nat) (tr : Tree)
-    (h : wf t lo hi d tr = true) :
+theorem flatten_sorted (t : KT) (hc : CmpLaws t) (lo hi : Option Bytes)
+    (hlo : ∀ l, lo = some l → valid t l = true) (hhi : ∀ h, hi = some h → valid t h = true)
+    (d : Nat) (tr : Tree) (h : wf t lo hi d tr = true) :
     Sorted t (flatten tr) ∧ KeysValid t (flatten tr) ∧
     ∀ e, e ∈ flatten tr → aboveLo t lo e.1 = true ∧ belowHi t hi e.1 = true := by
   sorry
